@@ -220,9 +220,11 @@ public:
 
         bool advance_suspend_lk(Handle h, awaiter *awt) {
             subreg_t &l = _regs[h];
-            if (l._kicked || _closed) return false;
+            if (l._kicked) return false;
+            //advance always - even if the queue has been closed meanwhile, otherwise
+            //the subscriber would read the last value again instead of the end of stream
             l._pos++;
-            if (l._pos == _pos) {
+            if (l._pos == _pos && !_closed) {
                 l._awt = awt;
                 return true;
             } else {
